@@ -103,6 +103,8 @@ class Gen(object):
         signed = r.random() < 0.6
         if r.random() < self.p.p_negfrac:
             nf = r.choice([r.randint(-8, -1), r.randint(nw + 1, nw + 8)])
+        elif r.random() < 0.12:
+            nf = 0      # integer formats: objects that start with an integer value type
         else:
             nf = r.randint(0, nw)
         return [signed, nw, nf]
@@ -1052,6 +1054,7 @@ class Gen(object):
             add(2, self.g_reduce, 'derive_reduce')
             add(1, self.g_like)
             add(1, self.g_deepcopy)
+            add(1, self.g_big_store)
             if p.p_register > 0:
                 add(int(10 * p.p_register) + 1, self.g_register_set, 'registers')
             if p.p_cb > 0:
@@ -1075,6 +1078,7 @@ class Gen(object):
             add(4, self.g_setitem_from)
             add(3, lambda: self.g_config_set(['overflow', 'rounding']))
             add(2, self.g_call)
+            add(1, self.g_big_store)     # sources that went through the Python-integer store path
             add(1, self.g_deepcopy)
             add(1, self.g_drop)
             if 'F5' in F:
@@ -1132,7 +1136,9 @@ class Gen(object):
             return {'op': 'new', 'val': val, 'fmt': fmt, 'kw': kw}
         pred = lambda o: self.is_real(o) and o.config.overflow == 'saturate' and o.n_frac >= 0 and not o.scaled
         if q < 0.75:
-            ks, i = self.pick(pred)
+            # prefer destinations whose value type no longer matches their format (built from an
+            # int, later given fraction bits): the read-back after the store takes another path
+            ks, i = self.pick(pred, prefer=lambda o: o.vdtype is int and o.n_frac != 0)
             if ks is None:
                 return {'op': 'new', 'val': None, 'fmt': fmt, 'kw': kw}
             return {'op': 'call', 'slot': self.cands().index(i), 'val': val, 'via': r.choice(['call', 'set_val'])}
